@@ -63,5 +63,7 @@ def jobs(tier):
                 out.append(job(c, 2, endian, {"ISIZE": isize}, "-size%d" % isize, timeout=to, cost=4))
             out.append(job(c, 2, endian, {"ISIZE": 3, "EC_DISABLE_PUB_KEY_CHK": 1}, "-size3-nochk"))
             out.append(job(c, 3, endian, None, "", timeout=to, cost=3))
+            out.append(job(c, 3, endian, {"SEEDX": 1}, "-longseed", timeout=to, cost=3))
             out.append(job(c, 5, endian, None, "", timeout=to, cost=3))
+            out.append(job(c, 5, endian, {"DH_ZERO_KEY": 1}, "-zerokey", timeout=to, cost=2))
     return out
